@@ -42,6 +42,8 @@ func snodes() []snode {
 		{"union[long,string]", ref.Union(ref.Prim("long"), ref.Prim("string"))},
 		{"union[null,long,string]", ref.Union(ref.Prim("null"), ref.Prim("long"), ref.Prim("string"))},
 		{"union[int,long]", ref.Union(ref.Prim("int"), ref.Prim("long"))},
+		// collections of elements at and above 128 bytes (Go maps store larger elements indirectly)
+		{"map>fixed128", ref.Map(fx(128).s)}, {"map>fixed136", ref.Map(fx(136).s)}, {"array>fixed136", ref.Array(fx(136).s)},
 	}
 }
 
@@ -96,6 +98,9 @@ func gtypes() []gtype {
 	add(map[NamedString]int64(nil))
 	add(map[int]int64(nil))
 	add(map[[2]byte]int64(nil))
+	add(map[string][128]byte(nil))
+	add(map[string][136]byte(nil))
+	add([][136]byte(nil))
 	add(struct{ A int64 }{})
 	add(struct{ A int16 `json:"a"` }{})
 	add(struct{ A string `json:"a"` }{})
@@ -631,7 +636,19 @@ func runPair(c *fw.Ctx, k int, pc pairCase) {
 		enc []byte
 	}
 	var rends []rendering
-	for _, d := range univ.Datums(fs, true) {
+	alphabet := univ.Datums(fs, true)
+	if fs.Type == "map" {
+		// a map of nine entries (more than one group of Go's map implementation holds)
+		vs := univ.Datums(fs.Values, false)
+		var keys []string
+		var vals []ref.Datum
+		for i := 0; i < 9; i++ {
+			keys = append(keys, fmt.Sprintf("entry-%d", i))
+			vals = append(vals, vs[i%len(vs)])
+		}
+		alphabet = append(alphabet, ref.DMap(keys, vals))
+	}
+	for _, d := range alphabet {
 		plain := ref.Encode(rs, ref.DRecord(d))
 		rends = append(rends, rendering{d, plain})
 		sized := (&ref.Enc{Policy: func(label string, n int) int {
@@ -813,7 +830,7 @@ func init() {
 			if tier == "thorough" {
 				p = "8 positions (direct, behind pointer, slice element, map value, slice of maps, nullable pointer, map of slices, pointer to pointer)"
 			}
-			return "the full matrix of 27 schema nodes (null, boolean, int, long, float, double, bytes, string, fixed 0/1/3/4/8/16/17, record, enum, arrays, map, unions with null first/second, multi-branch unions; each document parsed once and its Schema value reused for every Go type) × 55 Go types (bool, every signed/unsigned width, uintptr, floats, complex, string, named kinds, byte slices/arrays of every listed length, slices, arrays, maps with string/named/int/array keys, structs, pointers, interface, chan, func, unsafe.Pointer) × " + p + "; oracle: a soundness table written from the documented mapping — an unsound pair must be refused by Schema.Codec; for every pair that builds, every datum of the schema's full alphabet (in-range and out-of-range; collections as one plain block, one size-prefixed block and one size-prefixed block per item) is decoded into the middle element of a 3-element array of struct{c0 uint64; F G; c1 uint8; sibling; c2 uint64} and into a pre-sized canary-patterned slice: canaries, sibling, guard elements and trailing slice capacity must be byte-identical, the field must hold the reference value, out-of-range integers must be errors; every byte value 0..255 as a boolean into bool, *bool, []bool, map[string]bool, [null,boolean]→*bool and a named bool: a stored Go bool must hold 0 or 1 (or the decode fails); each pair runs in an isolated worker (a crash is a violation of that pair); non-trivial = a distinct (schema, type, position) triple"
+			return "the full matrix of 30 schema nodes (incl. maps and arrays of 128- and 136-byte elements; every map also with nine entries; null, boolean, int, long, float, double, bytes, string, fixed 0/1/3/4/8/16/17, record, enum, arrays, map, unions with null first/second, multi-branch unions; each document parsed once and its Schema value reused for every Go type) × 55 Go types (bool, every signed/unsigned width, uintptr, floats, complex, string, named kinds, byte slices/arrays of every listed length, slices, arrays, maps with string/named/int/array keys, structs, pointers, interface, chan, func, unsafe.Pointer) × " + p + "; oracle: a soundness table written from the documented mapping — an unsound pair must be refused by Schema.Codec; for every pair that builds, every datum of the schema's full alphabet (in-range and out-of-range; collections as one plain block, one size-prefixed block and one size-prefixed block per item) is decoded into the middle element of a 3-element array of struct{c0 uint64; F G; c1 uint8; sibling; c2 uint64} and into a pre-sized canary-patterned slice: canaries, sibling, guard elements and trailing slice capacity must be byte-identical, the field must hold the reference value, out-of-range integers must be errors; every byte value 0..255 as a boolean into bool, *bool, []bool, map[string]bool, [null,boolean]→*bool and a named bool: a stored Go bool must hold 0 or 1 (or the decode fails); each pair runs in an isolated worker (a crash is a violation of that pair); non-trivial = a distinct (schema, type, position) triple"
 		},
 		Assumptions: []string{
 			"a sound pair that the library refuses is not a violation (the statement allows failing)",
